@@ -111,6 +111,17 @@ Proof.
 Qed.
 Print Assumptions batch_over_pool.
 
+(* "batch recommendation equals the single-query operation for each key in turn" includes the PARAMETERS of the call: the module-level
+   helpers (GENERATED helper_recommend / helper_score / helper_predict: the request each puts on its runner) give the pipeline, for every
+   key and every value of the list length n -- None, 0, negative or larger than the catalogue, no value stands for "not given" -- exactly the
+   keyword arguments of lenskit.recommend(pipe, q, n) / lenskit.score / predict(pipe, q, items) *)
+Theorem helpers_forward_parameters : forall (IV : Type) (k : @key IV) (n items : IV),
+  inputs_of (helper_inv helper_recommend n) k items = single_inputs HSRecommendN (alookup "user_id"%string k) n items /\
+  inputs_of (helper_inv helper_score n) k items = single_inputs HSScore (alookup "user_id"%string k) n items /\
+  inputs_of (helper_inv helper_predict n) k items = single_inputs HSPredict (alookup "user_id"%string k) n items.
+Proof. exact helpers_forward_parameters_l. Qed.
+Print Assumptions helpers_forward_parameters.
+
 Theorem failure_surfaces :
   (forall (A R : Type) (f : A -> res R) (d : R) pre x post e,
      (forall y, In y pre -> is_ok (f y) = true) -> f x = Err e ->
